@@ -44,10 +44,84 @@ ParamExtensionMasked(doc, v, opts) ==
    /\ v.rule = "extra_field" /\ v.kind = "parameter" /\ "DisEx" \in opts
    /\ Has(AtPtr(doc, v.at), "schema")
 
-Missed(doc, v, opts) ==
-   IF UnderOperationCallbacks(v) THEN "operation_callbacks_not_validated"
+(*----- the request / response mode in which an example is judged (findings 13 and 14) -----*)
+ExR == {"example_mismatch", "examples_mismatch"}
+ModeKinds == {"mediaType", "header", "parameter", "schema"}
+ExRulesAt(doc, kind, at, mode) == LocalRules(kind, AtPtr(doc, at), doc, mode) \cap ExR
+(* the places of a document whose example verdict depends on the mode at all (computed once per document) *)
+ModeSites(doc, sites) ==
+   {x \in sites : ~x.isref /\ x.kind \in ModeKinds
+                   /\ \E m \in {"req", "res"} : ExRulesAt(doc, x.kind, x.at, m) # ExRulesAt(doc, x.kind, x.at, "any")}
+
+(* The order in which Validate walks a document, as far as it matters here: the position of a place is the   *)
+(* sequence of (rank of the member in its object, rank of the key / index in its map / array) along the way  *)
+(* from the root; Validate takes the members of an object in the order below, map keys in sorted order.      *)
+RankIn(seq, x) == IF \E i \in DOMAIN seq : seq[i] = x THEN CHOOSE i \in DOMAIN seq : seq[i] = x ELSE 0
+EdgeRank(kind, f) ==
+   CASE kind = "root" -> RankIn(<<"components", "info", "paths", "servers", "tags", "externalDocs">>, f)
+     [] kind = "components" -> RankIn(<<"schemas", "parameters", "requestBodies", "responses", "headers", "securitySchemes",
+                                        "examples", "links", "callbacks">>, f)
+     [] kind = "pathItem" -> RankIn(<<"connect", "delete", "get", "head", "options", "patch", "post", "put", "trace", "parameters", "servers">>, f)
+     [] kind = "operation" -> RankIn(<<"parameters", "requestBody", "responses", "externalDocs", "servers", "callbacks">>, f)
+     [] kind = "response" -> RankIn(<<"content", "headers", "links">>, f)
+     [] kind = "mediaType" -> RankIn(<<"schema", "examples", "encoding">>, f)
+     [] kind = "schema" -> RankIn(<<"oneOf", "anyOf", "allOf", "not", "items", "properties", "additionalProperties",
+                                    "externalDocs", "discriminator", "xml">>, f)
+     [] OTHER -> RankIn(<<"content", "schema", "examples", "headers", "variables", "flows">>, f)
+(* keys of the universe that are siblings somewhere, in byte order *)
+KeyRank(k) == RankIn(<<"200", "2XX", "404", "default", Join(cNameR), Join(cNameR1), Join(cNameS), Join(cNameT), "a",
+                       "application/json", "b", "p", "q", "text/plain", "v", "w", Join(cPathP), Join(cPathQ)>>, k)
+IdxOf(tok) == IF \E i \in 0..9 : ToString(i) = tok THEN CHOOSE i \in 0..9 : ToString(i) = tok ELSE 0
+RECURSIVE PosOf(_, _)
+PosOf(via, at) ==
+   IF via = <<>> THEN <<>>
+   ELSE LET k == via[1][1]
+            f == via[1][2]
+            md == (CHOOSE e \in Edges(k) : e.f = f).mode IN
+        CASE md = "one"  -> <<EdgeRank(k, f), 0>> \o PosOf(Tail(via), Tail(at))
+          [] md = "arr"  -> <<EdgeRank(k, f), IdxOf(at[2]) + 1>> \o PosOf(Tail(via), SubSeq(at, 3, Len(at)))
+          [] md = "map"  -> <<EdgeRank(k, f), KeyRank(at[2])>> \o PosOf(Tail(via), SubSeq(at, 3, Len(at)))
+          [] md = "self" -> <<0, KeyRank(at[1])>> \o PosOf(Tail(via), Tail(at))
+(* a is visited no later than b: a is a prefix of b (an ancestor, or b itself), or smaller at the first difference *)
+RECURSIVE NoLater(_, _)
+NoLater(a, b) == IF a = <<>> THEN TRUE ELSE IF b = <<>> THEN FALSE
+                 ELSE IF Head(a) # Head(b) THEN Head(a) < Head(b) ELSE NoLater(Tail(a), Tail(b))
+(* F-C04-14: Request Body and Response set the mode in the options shared by the whole walk and nobody resets *)
+(* it: a place is judged in the mode of the last Request Body / Response entered before it                    *)
+StickyMode(sites, via, at) ==
+   LET me == PosOf(via, at)
+       before == {y \in sites : y.kind \in {"requestBody", "response"} /\ NoLater(PosOf(y.via, y.at), me)} IN
+   IF before = {} THEN "any"
+   ELSE LET last == CHOOSE y \in before : \A z \in before : NoLater(PosOf(z.via, z.at), PosOf(y.via, y.at)) IN
+        IF last.kind = "requestBody" THEN "req" ELSE "res"
+(* F-C04-13: without any option there are no shared options at all (WithValidationOptions returns the context *)
+(* unchanged, getValidationOptions hands out a fresh struct each time): the mode is never seen               *)
+ImplModeOpen(sites, via, at, noopt) == IF noopt THEN "any" ELSE StickyMode(sites, via, at)
+ContextLost(doc, v, noopt) ==
+   noopt /\ v.rule \in ExR /\ v.kind \in ModeKinds /\ v.rule \notin ExRulesAt(doc, v.kind, v.at, "any")
+ContextLeak(doc, sites, v, noopt) ==
+   ~noopt /\ v.rule \in ExR /\ v.kind \in ModeKinds
+   /\ v.rule \notin ExRulesAt(doc, v.kind, v.at, StickyMode(sites, v.via, v.at))
+(* F-C04-15: the examples map (its Example Objects, its references) and the example / examples exclusion are  *)
+(* only looked at inside "if schema != nil": not for a media type without schema, not for a parameter or     *)
+(* header described by content                                                                               *)
+NoSchemaExamples(doc, v) ==
+   \/ v.rule = "example_and_examples" /\ ~Has(AtPtr(doc, v.at), "schema")
+   \/ /\ LastEdge(v.via) \in {<<"parameter", "examples">>, <<"header", "examples">>, <<"mediaType", "examples">>}
+      /\ Len(v.at) >= 2 /\ ~Has(AtPtr(doc, SubSeq(v.at, 1, Len(v.at) - 2)), "schema")
+
+(* F-C04-16 Link.Validate never validates the Server Object of the link *)
+UnderLinkServer(v) == HasEdge(v.via, "link", "server")
+
+Missed(doc, sites, v, opts, noopt) ==
+   (* a place the walk never reaches explains everything below it (the headers of an encoding: still open) *)
+   IF UnderEncoding(v) THEN "encoding_header_errors_swallowed"
+   ELSE IF UnderLinkServer(v) THEN "link_server_not_validated"
+   ELSE IF ContextLost(doc, v, noopt) THEN "example_request_response_context_lost_without_options"
+   ELSE IF ContextLeak(doc, sites, v, noopt) THEN "example_judged_in_mode_of_earlier_request_body_or_response"
+   ELSE IF NoSchemaExamples(doc, v) THEN "examples_not_validated_without_schema"
+   ELSE IF UnderOperationCallbacks(v) THEN "operation_callbacks_not_validated"
    ELSE IF UnderNestedServers(v) THEN "path_item_and_operation_servers_not_validated"
-   ELSE IF UnderEncoding(v) THEN "encoding_header_errors_swallowed"
    ELSE IF HeaderUnchecked(v) THEN "header_extra_fields_and_examples_not_validated"
    ELSE IF DiscriminatorXml(v) THEN "schema_discriminator_xml_not_validated"
    ELSE IF NestedRefSibling(v) THEN "nested_schema_ref_siblings_not_checked"
@@ -71,19 +145,26 @@ ExternalExample(doc, x) ==
    /\ HasStr(AtPtr(doc, x.at), "externalValue") /\ ~Has(AtPtr(doc, x.at), "value")
    /\ Has(AtPtr(doc, SubSeq(x.at, 1, Len(x.at) - 2)), "schema")
 
-Refused(doc, sites, opts) ==
-   IF \E r \in sites : r.isref /\ UnvisitedByLoader(r) /\ Resolves(doc, AtPtr(doc, r.at), SectionOf(r.kind))
+Refused(doc, sites, opts, noopt) ==
+   IF "DisEx" \notin opts /\ noopt
+      /\ \E x \in ModeSites(doc, sites) : ~(ExRulesAt(doc, x.kind, x.at, "any") \subseteq ExRulesAt(doc, x.kind, x.at, ModeOf(x.via)))
+   THEN "example_request_response_context_lost_without_options"
+   ELSE IF "DisEx" \notin opts /\ ~noopt
+      /\ \E x \in ModeSites(doc, sites) : ~(ExRulesAt(doc, x.kind, x.at, StickyMode(sites, x.via, x.at))
+                                                \subseteq ExRulesAt(doc, x.kind, x.at, ModeOf(x.via)))
+   THEN "example_judged_in_mode_of_earlier_request_body_or_response"
+   ELSE IF \E r \in sites : r.isref /\ UnvisitedByLoader(r) /\ Resolves(doc, AtPtr(doc, r.at), SectionOf(r.kind))
    THEN "reference_position_not_visited_by_loader"
    ELSE IF "DisEx" \notin opts /\ \E x \in sites : ExternalExample(doc, x)
    THEN "external_example_validated_as_null"
    ELSE "none"
 
 (* sites = Sites(line.doc) *)
-Class(line, Vs, sites, opts, got) ==
+Class(line, Vs, sites, opts, noopt, got) ==
    LET inForce == {v \in Vs : Enabled(v, opts)} IN
    IF inForce # {} /\ got = "A"
-   THEN LET cs == {Missed(line.doc, v, opts) : v \in inForce} IN
+   THEN LET cs == {Missed(line.doc, sites, v, opts, noopt) : v \in inForce} IN
         IF Cardinality(cs) = 1 THEN CHOOSE c \in cs : TRUE ELSE "none"
-   ELSE IF inForce = {} /\ got = "R" THEN Refused(line.doc, sites, opts)
+   ELSE IF inForce = {} /\ got = "R" THEN Refused(line.doc, sites, opts, noopt)
    ELSE "none"
 =============================================================================
